@@ -100,4 +100,9 @@ void run_vecalgo ();
 void run_planes ();
 void run_sphere ();
 void run_triangle ();
+void run_scale ();      // c15_d.cpp
+void run_graded ();     // c15_e.cpp
+void run_affine ();     // c15_e.cpp
+void run_cvertex ();    // c15_e.cpp
+void run_farsphere ();  // c15_e.cpp
 } // namespace c15
